@@ -19,7 +19,7 @@ from . import c01, c02, c03, c10, c11, setop_prop as S, setops
 ASSUMES = S.ASSUMES
 LEVEL_TEXT = __doc__
 DEEPER = False     # thorough tier: more configurations and the mutant corpus, same unrolling (path count grows too fast)
-RULES = {"push": "R13.1", "emit": "R13.1", "ctor": "R13.1"}
+RULES = {"push": "R13.1", "emit": "R13.1", "ctor": "R13.1", "partition": "R13.1"}
 
 
 def declare(rep):
